@@ -29,11 +29,14 @@ Record Inv (s : state) : Prop := mkInv {
   iK3 : forall t ts o k d, gts s t = Some ts -> tss s ts = TsLive o k d -> o = t;
   iI : forall ts o k c, tss s ts = TsLive o k (Some c) ->
          1 <= k /\ (thr s o = Alive -> incb s o = true -> 2 <= k);
-  iI2 : forall ts o k, tss s ts = TsLive o k None ->
+  iI2 : forall ts o k, tss s ts = TsLive o k None -> dropped s ts = false ->
          k = 1 /\ incb s o = false /\ gts s o = Some ts /\ thr s o = Alive /\ exists ph, reg s = Some (o, ph);
+  iI3 : forall ts o k, tss s ts = TsLive o k None -> dropped s ts = true ->
+         1 <= k /\ (thr s o = Alive -> incb s o = true -> 2 <= k) /\ gts s o = Some ts;
+  iL : forall ts, nextts s <= ts -> dropped s ts = false;
   iJ : forall t ph, reg s = Some (t, ph) ->
          thr s t = Alive /\ incb s t = false /\ finalized s = false /\
-         exists ts, gts s t = Some ts /\ tss s ts = TsLive t 1 None;
+         exists ts, gts s t = Some ts /\ tss s ts = TsLive t 1 None /\ dropped s ts = false;
   iJ2 : forall t c ts, reg s = Some (t, Clearing c ts) -> cans s c = CAlive ts None false
 }.
 
@@ -57,7 +60,7 @@ Ltac upd_split :=
              [subst; rewrite ?upd_same in *|rewrite ?upd_other in * by assumption]
          end.
 
-Ltac fields := cbn [thr gts tlsc incb tss cans zombies reg nextts nextc ndel finalized fatal] in *.
+Ltac fields := cbn [thr gts tlsc incb tss cans zombies reg nextts nextc ndel finalized fatal dropped] in *.
 
 Ltac destr_ex :=
   repeat match goal with
@@ -101,7 +104,10 @@ Ltac sat1 HI :=
          | H : tss ?s ?ts = TsLive ?o ?k ?d |- _ => pose_once (11, ts, o, k, d) (iF1 s HI ts o k d H)
          | H : tss ?s ?ts = TsLive ?o ?k (Some ?c) |- _ => pose_once (12, ts, o, k, c) (iF2 s HI ts c o k H)
          | H : tss ?s ?ts = TsLive ?o ?k (Some ?c) |- _ => pose_once (13, ts, o, k, c) (iI s HI ts o k c H)
-         | H : tss ?s ?ts = TsLive ?o ?k None |- _ => pose_once (14, ts, o, k) (iI2 s HI ts o k H)
+         | H : tss ?s ?ts = TsLive ?o ?k None, H1 : dropped ?s ?ts = false |- _ =>
+             pose_once (14, ts, o, k) (iI2 s HI ts o k H H1)
+         | H : tss ?s ?ts = TsLive ?o ?k None, H1 : dropped ?s ?ts = true |- _ =>
+             pose_once (21, ts, o, k) (iI3 s HI ts o k H H1)
          | H : tss ?s ?ts = TsDeleted |- _ => pose_once (15, ts) (iF3 s HI ts H)
          | H : tss ?s ?ts = TsFree |- _ => pose_once (16, ts) (iF4 s HI ts H)
          | H : tlsc ?s ?t = Some (Some ?c) |- _ => pose_once (17, t, c) (iE s HI t c H)
@@ -127,7 +133,16 @@ Ltac fwd :=
          | H : true = true -> _ |- _ => specialize (H eq_refl)
          end.
 
-Ltac sat HI := sat1 HI; destr_ex; norm; sat1 HI; destr_ex; norm; fwd.
+Ltac split_dropped :=
+  repeat match goal with
+         | H : tss ?s ?ts = TsLive _ _ None |- _ =>
+             lazymatch goal with
+             | _ : dropped s ts = _ |- _ => fail
+             | _ => destruct (dropped s ts) eqn:?
+             end
+         end.
+
+Ltac sat HI := sat1 HI; destr_ex; norm; split_dropped; sat1 HI; destr_ex; norm; fwd.
 
 Ltac easy_goal :=
   try solve [ eauto | congruence | lia
@@ -152,6 +167,7 @@ Ltac fresh_goal HI :=
   match goal with
   | |- tss ?s ?ts = TsFree => apply (iF5 s HI); lia
   | |- cans ?s ?c = CFree => apply (iF6 s HI); lia
+  | |- dropped ?s ?ts = false => apply (iL s HI); lia
   end.
 
 Ltac finish HI :=
@@ -251,6 +267,22 @@ Proof.
     destruct (tss s ts); congruence.
 Qed.
 
+Lemma inv_drop s t s' : Inv s -> step s (EvDictDrop t) s' -> Inv s'.
+Proof.
+  intros HI Hs. unfold step, step_fn in Hs.
+  destruct (finalized s) eqn:Ef; try discriminate.
+  destruct (thr s t) eqn:Et; try discriminate.
+  destruct (reg s) eqn:Er; try discriminate.
+  destruct (gts s t) as [ts|] eqn:Eg; try discriminate.
+  destruct (tss s ts) as [|o k [c|]|] eqn:Ets; try discriminate.
+  sat HI. split_tl HI; try congruence.
+  unfold dealloc in Hs.
+  match goal with H : cans s c = CAlive _ _ _ |- _ => rewrite H in Hs end.
+  inversion Hs; subst; clear Hs.
+  pose proof HI as HI'; destruct HI'.
+  constructor; fields; intros; upd_split; sat HI; finish HI.
+Qed.
+
 Lemma inv_step s e s' : Inv s -> step s e s' -> Inv s'.
 Proof.
   intros HI Hs. destruct e.
@@ -261,6 +293,7 @@ Proof.
   - eapply inv_cbend; eauto.
   - eapply inv_exit; eauto.
   - eapply inv_finalize; eauto.
+  - eapply inv_drop; eauto.
 Qed.
 
 Lemma reach_inv s : reach s -> Inv s.
@@ -286,7 +319,8 @@ Qed.
 Lemma exited_not_leaked s t ts : Inv s -> thr s t = Exited -> gts s t = Some ts ->
   tss s ts = TsDeleted \/
   (exists c, In c (zombies s) /\ cans s c = CAlive ts None true) \/
-  (exists t' c, reg s = Some (t', Clearing c ts)).
+  (exists t' c, reg s = Some (t', Clearing c ts)) \/
+  dropped s ts = true.
 Proof.
   intros HI Hx Hg. destruct (tss s ts) as [|o k d|] eqn:E; auto.
   - exfalso. eapply (iK1 s HI); eauto.
@@ -297,8 +331,9 @@ Proof.
         rewrite E in E'. inversion E'; subst. congruence.
       * destruct z.
         -- right; left. exists c. split; auto. apply (iD3 s HI _ _ _ Ec).
-        -- right; right. destruct (iD6 s HI _ _ Ec) as [t' Hr]. eauto.
-    + destruct (iI2 s HI _ _ _ E) as (_ & _ & _ & Ha & _). congruence.
+        -- right; right; left. destruct (iD6 s HI _ _ Ec) as [t' Hr]. eauto.
+    + destruct (dropped s ts) eqn:Ed; [right; right; right; reflexivity|].
+      destruct (iI2 s HI _ _ _ E Ed) as (_ & _ & _ & Ha & _). congruence.
 Qed.
 
 (* the thread state of a live foreign thread never changes *)
@@ -332,6 +367,7 @@ Proof.
   intros Hr H. destruct e; cbn [mstep] in H.
   - destruct (step_fn s (EvCb t)) eqn:E; [|discriminate].
     eapply sweep_all_reach; [|eauto]. eapply r_step; eauto.
+  - eapply r_step; eauto.
   - eapply r_step; eauto.
   - eapply r_step; eauto.
   - eapply r_step; eauto.
@@ -382,7 +418,8 @@ Qed.
 Lemma no_leak s t ts : reach s -> thr s t = Exited -> gts s t = Some ts ->
   tss s ts = TsDeleted \/
   (exists c, In c (zombies s) /\ cans s c = CAlive ts None true) \/
-  (exists t' c, reg s = Some (t', Clearing c ts)).
+  (exists t' c, reg s = Some (t', Clearing c ts)) \/
+  dropped s ts = true.
 Proof. intros H. apply exited_not_leaked, reach_inv, H. Qed.
 
 (* after a complete registration (macro first callback) the zombie list as seen at its start is
@@ -392,5 +429,24 @@ Lemma counter_keeps_alive s t ts k d : reach s -> thr s t = Alive -> gts s t = S
 Proof.
   intros H Ha Hg E Hi. pose proof (reach_inv s H) as HI. destruct d as [c|].
   - apply (iI s HI _ _ _ _ E); auto.
-  - destruct (iI2 s HI _ _ _ E) as (_ & Hb & _). congruence.
+  - destruct (dropped s ts) eqn:Ed.
+    + apply (iI3 s HI _ _ _ E Ed); auto.
+    + destruct (iI2 s HI _ _ _ E Ed) as (_ & Hb & _). congruence.
+Qed.
+
+Lemma drop_clears_backpointer : forall s t s', reach s -> step s (EvDictDrop t) s' ->
+  tlsc s' t = Some None /\ exists ts, gts s' t = Some ts /\ dropped s' ts = true /\
+  exists k, tss s' ts = TsLive t k None.
+Proof.
+  intros s t s' Hr Hs. pose proof (reach_inv s Hr) as HI. unfold step, step_fn in Hs.
+  destruct (finalized s) eqn:Ef; try discriminate.
+  destruct (thr s t) eqn:Et; try discriminate.
+  destruct (reg s) eqn:Er; try discriminate.
+  destruct (gts s t) as [ts|] eqn:Eg; try discriminate.
+  destruct (tss s ts) as [|o k [c|]|] eqn:Ets; try discriminate.
+  sat HI. split_tl HI; try congruence.
+  unfold dealloc in Hs.
+  match goal with H : cans s c = CAlive _ _ _ |- _ => rewrite H in Hs end.
+  inversion Hs; subst; clear Hs. fields.
+  split; [apply upd_same|]. eexists. split; [eassumption|]. rewrite !upd_same. split; eauto.
 Qed.
